@@ -27,7 +27,9 @@
    successful CAS on the head pointer is the push [w :: l] (a job is pushed at most once and jobs are only ever
    removed all together by the exchange, so equal head pointers mean equal lists).  Not modelled: OneShotEvent::Call
    and Reset (documented as not thread-safe / not used by WaitGroup), a counter that wraps below zero (flagged
-   [broken]), the inside of the waiter's mutex + condition variable (C18) and of the future's shared state (C01).
+   [broken]), Attach/Consume of several futures in one call or with NeedAdd=false (one future per call, implicit
+   Add), the inside of the waiter's mutex + condition variable (C18) and of the future's shared state (C01).
+   WaitUntil is WaitFor (same TimedWait).
 
    Events are what the tracer sees on the real code.  No proofs in this file. *)
 
@@ -225,13 +227,14 @@ Definition note_rel (w : nat) (s : st) : st :=
      head := head s; pend := pend s; todo := todo s; incall := incall s; ws := ws s; fs := fs s;
      rels := rels s ++ [(w, cnt s, fired s)]; readys := readys s; gots := gots s |}.
 
-(* fetch_add(n); [rule] says whether this use is within the documented rule *)
+(* fetch_add(n); du = how many of the units are plain (user) units; an Add after the count hit zero breaks the rule *)
 Definition do_add (n du : nat) (s : st) : st :=
   {| cnt := cnt s + n; uu := uu s + du; fired := fired s; broken := broken s || fired s; crash := crash s;
      uaf := uaf s; head := head s; pend := pend s; todo := todo s; incall := incall s; ws := ws s; fs := fs s;
      rels := rels s; readys := readys s; gots := gots s |}.
 
-(* fetch_sub(n) and, when it returned n (AtomicCounter::SubEqual), the obligation to call Set (SetDeleter) *)
+(* fetch_sub(n) and, when it returned n (AtomicCounter::SubEqual), the obligation to call Set (SetDeleter);
+   [bad]: the caller already knows that this Done is not matched by an Add *)
 Definition do_sub (n du : nat) (bad : bool) (s : st) : st :=
   let hit := Nat.eqb (cnt s) n in
   {| cnt := cnt s - n; uu := uu s - du; fired := fired s || hit;
